@@ -6,7 +6,7 @@ LEVEL = "model_checking"
 
 def run(tier, seed, limit=0):
     chk = engine.Check("C17", tier, seed)
-    scs = fam_tree.family_T(tier, seed, tag="T17")
+    scs = fam_tree.family_T(tier, seed, tag="T17") + fam_tree.family_cb_special(tier, seed)
     if limit:
         scs = scs[:limit]
     chk.run_scenarios(scs, "Trace_VscRand", nontrivial=lambda r: any(e.get("cbs") for e in r["events"]))
